@@ -258,6 +258,67 @@ def many_failures_part(ctx):
     shutil.rmtree(root, ignore_errors=True)
 
 
+def sequence_part(ctx, rnd):
+    """Several decode operations on the SAME member of one reader (read then extract, check then extract, check twice, ...).
+    Compressed data can be consumed once, so only the first operation can see the whole member; the iff is applied to every
+    operation that reports success: an extract that returns 1 must have left a file with exactly the recorded length and CRC
+    (the harness reports what is on disk), and a check that returns 1 must be the first decode operation on its member."""
+    sh = core.Shard()
+    R, RA, C, X = (rdh.OP_READ, 100), (rdh.OP_READALL, 0), (rdh.OP_CHECK, 0), (rdh.OP_EXTRACT_NAMED, 0)
+    seqs = [[C, X], [X, C], [(rdh.OP_READ, 1), X], [R, X], [RA, X], [R, C], [RA, C], [C, C], [X, X], [(rdh.OP_READ, 1), C, X], [X], [C], [R, R, X]]
+    cases = []
+    for meth in ('-lh0-', '-lh5-', '-lz5-', '-pm2-', '-lh1-'):
+        for sz in (3000, 150, 1):
+            # members whose compressed data denotes exactly the recorded bytes and nothing more (a stream with slack after the
+            # declared length could legitimately be decoded a second time from where the first decoder stopped)
+            ms = []
+            for k in range(2):
+                if meth in streams.STORED:
+                    plain = bytes(rnd.randrange(256) for _ in range(sz))
+                    packed = plain
+                else:
+                    packed, plain, _ = streams.valid_stream(rnd, meth, sz)
+                ms.append(arc.Member(H.simple_member(b'm%d' % k, plain, level=k % 3, method=meth.encode(), packed=packed), packed, plain))
+            a = arc.archive(ms)
+            for sq in seqs:
+                ops = []
+                for _ in ms:
+                    ops += [(rdh.OP_NEXT, 0)] + sq
+                ops.append((rdh.OP_NEXT, 0))
+                cases.append(rdh.RCase(a, ops, kind=rnd.choice([0, 2]), meta=(meth, sz, sq, ms)))
+    res = rdh.run_batch(_EXE, cases, sh, label='c07seq', on_crash=lambda c, cls, key, err: sh.violation('C07-crash:' + key, err[-600:], c.archive))
+    names = {rdh.OP_READ: 'read', rdh.OP_READALL: 'read-all', rdh.OP_CHECK: 'check', rdh.OP_EXTRACT_NAMED: 'extract'}
+    for c in cases:
+        ev = res.get(c.id)
+        meth, sz, sq, ms = c.meta
+        sh.evaluated(c.archive + repr(sq).encode(), nontrivial=len(sq) > 1)
+        sh.count('same_member_sequences')
+        if ev is None:
+            continue
+        cur, nth, consumed = None, 0, False
+        seqname = '+'.join(names[o] for o, _ in sq)
+        for k, d in ev:
+            if k == 'next':
+                cur, consumed = d, False
+            elif cur is None:
+                continue
+            elif k in ('read', 'readall'):
+                consumed = consumed or d['n'] > 0
+            elif k == 'check':
+                if d['result'] == 1 and consumed and cur['size'] >= 64:
+                    sh.violation('C07-success-after-data-was-consumed:check:' + seqname, 'lha_reader_check returned success for a %s member of %d bytes although an earlier '
+                                 'operation of the sequence %s had already consumed its data' % (meth, sz, seqname), c.archive)
+                consumed = True
+            elif k == 'extract':
+                if d['result'] == 1 and not (d.get('flen') == cur['size'] and d.get('fcrc') == cur['crc']):
+                    sh.violation('C07-extract-success-but-file-wrong:' + seqname, 'lha_reader_extract returned success (sequence %s on a %s member: %d bytes, CRC %04x recorded) '
+                                 'but the file holds %s bytes, CRC %04x' % (seqname, meth, cur['size'], cur['crc'], d.get('flen'), d.get('fcrc', 0)), c.archive)
+                if d['result'] == 0 and not consumed and sz > 0:
+                    sh.violation('C07-false-bad:extract:' + seqname, 'first operation on a valid %s member (extract) reported failure' % meth, c.archive)
+                consumed = True
+    core.merge_shard(ctx, sh)
+
+
 def write_fault_part(ctx, rnd):
     """Extraction under write faults: RLIMIT_FSIZE = L with SIGXFSZ ignored makes write(2) fail with EFBIG once a file would
     grow past L bytes.  The iff of C07 is judged on what extraction produced, i.e. the file on disk: a member reported
@@ -370,11 +431,12 @@ def run(ctx):
     core.run_shards(ctx, shard, args)
     cli_part(ctx, rnd, bases[::3] if ctx.tier == 'quick' else bases)
     many_failures_part(ctx)
+    sequence_part(ctx, rnd)
     write_fault_part(ctx, rnd)
     burst_part(ctx, enum)
     ctx.cov['rule'] = ('archive variants (valid; recorded length n+-1/0/2^32-1; every single-bit flip of the recorded CRC; bit flips in member '
                        'data - every byte for small stored members; every truncation of small archives) over members of all 14 methods; three '
-                       'independent readers (read / check / extract) + CLI t and x; extraction under write faults (file size limit placed in the '
+                       'independent readers (read / check / extract) + CLI t and x; several decode operations on the same member of one reader (success only for the operation that saw the whole data; extracted file checked on disk); extraction under write faults (file size limit placed in the '
                        'first, a middle and the last stdio block of a member), judged on the bytes on disk; distinct by archive bytes; non-trivial = a non-valid variant '
                        'with at least one returned member')
     ctx.assumptions.append('MacBinary members excluded (their delivered bytes differ from the CRC\'d stream by design)')
